@@ -6,6 +6,9 @@ Real side: Pyro5.utils.httpgateway.pyro_app(environ, start_response), in-process
     client.Proxy (network methods overridden, everything else — including Python attribute lookup on
     the proxy object — is the real class),
 so every name-server lookup and every invocation is logged and nothing touches the network.
+All requests of a run are one history against the one gateway app object; between requests the harness writes
+Pyro5.config the way an embedding application would.  A second suite ("history") runs short histories against a
+real Pyro daemon on loopback with the real client.Proxy (only logging added) and checks the reply bodies as JSON.
 Model side: lean/PyroModel/Gateway.lean through the drv_c20 driver.
 """
 import ast
@@ -30,13 +33,19 @@ THEOREMS = ["Pyro.C20.C20_no_traffic", "Pyro.C20.C20_refused", "Pyro.C20.C20_no_
             "Pyro.C20.C20_unknown_member", "Pyro.C20.C20_self_param", "Pyro.C20.C20_params_exact",
             "Pyro.C20.C20_status", "Pyro.C20.C20_homepage_only_keyless",
             "Pyro.C20.C20_split_sound", "Pyro.C20.C20_split_greedy", "Pyro.C20.C20_split_complete",
+            "Pyro.C20.C20_history", "Pyro.C20.C20_history_json",
             "Pyro.C20.C20_gen_facts"]
-SUITES = ["gateway"]
+SUITES = ["gateway", "history"]
 RULE = ("requests generated from VERIF_SEED: method x path shape (0-4 segments, doubled/encoded slashes, newline, names "
         "differing from a registered one by prefix/suffix/case, proxy-local member names) x raw query string (repeated keys, "
         "percent-encoding, $key absent/wrong/right/duplicated/encoded, 'self') x key header x options x correlation id x "
         "gateway key (none/empty/ascii/non-ascii/invalid utf-8) x expose pattern (none/empty/7 regexes) x backend script "
-        "(name server down, unknown name, proxy/metadata/call failures, oneway, exception replies); a case is non-trivial "
+        "(name server down, unknown name, proxy/metadata/call failures, oneway, exception replies).  All requests of a run "
+        "form ONE history against the one pyro_app object of the process: before each request other code may write "
+        "Pyro5.config (SERIALIZER serpent/marshal/msgpack/json, COMMTIMEOUT, config.reset()), nothing is restored in "
+        "between; the serializer in force at each invocation is observed.  Second suite: histories of 2-6 requests against "
+        "a real daemon on loopback (real client.Proxy, real wire), same config writes in between, every reply body must "
+        "parse as JSON and equal the call's value.  A case is non-trivial "
         "when the real gateway produced Pyro traffic (>= 1 logged action); distinct = distinct (config, request, backend)")
 ASSUMPTIONS = ["environ carries REQUEST_METHOD, QUERY_STRING and wsgi.errors (PEP 3333 / wsgiref always set them) and its strings hold no lone surrogates",
                "urllib.parse.parse_qs and uuid.UUID are externals: the model receives their results",
@@ -149,6 +158,33 @@ def _facts():
     if len(sw) != 1 or len(sl) != 1 or len(tup) != 1 or len(strs) != 1 or len(red) != 1:
         raise ValueError("unexpected shape of pyro_app")
     f["routePrefix"], f["routeSlice"], f["allowedMethods"], f["optionsLiteral"], f["redirectTarget"] = sw[0], sl[0], tup[0], strs[0], red[0]
+    # pyro_app's writes to Pyro's process-global config: item, nesting depth (0 = plain statement of the body), line
+    writes = []
+
+    def walk(stmts, depth):
+        for st in stmts:
+            if isinstance(st, ast.Assign):
+                for t in st.targets:
+                    for tt in (t.elts if isinstance(t, ast.Tuple) else [t]):
+                        if isinstance(tt, ast.Attribute) and getattr(tt.value, "id", None) == "config":
+                            writes.append((tt.attr, depth, st.lineno, st.value))
+            for field in ("body", "orelse", "finalbody"):
+                sub = getattr(st, field, None)
+                if isinstance(sub, list):
+                    walk(sub, depth + 1)
+            for h in getattr(st, "handlers", []) or []:
+                walk(h.body, depth + 1)
+    walk(app.body, 0)
+    ser = [w[3].value for w in writes if w[0] == "SERIALIZER" and isinstance(w[3], ast.Constant) and isinstance(w[3].value, str)]
+    f["configWrites"] = [(w[0], w[1]) for w in writes]
+    f["configWriteLines"] = [w[2] for w in writes]
+    f["configSerializer"] = ser[0] if len(ser) == 1 else "?"
+    reads = [n.lineno for n in ast.walk(app) if (isinstance(n, ast.Call) and isinstance(n.func, ast.Attribute) and
+                                                 getattr(n.func.value, "id", None) == "environ") or
+             (isinstance(n, ast.Subscript) and getattr(n.value, "id", None) == "environ")]
+    if not reads:
+        raise ValueError("pyro_app does not read environ")
+    f["firstEnvironReadLine"] = min(reads)
     # module level defaults
     dflt = {}
     for n in tree.body:
@@ -170,6 +206,7 @@ def extract():
     f = _facts()
     b = "true" if f["defaultKeyIsNone"] else "false"
     sts = "[" + ", ".join("(%s, %d)" % (json.dumps(t), n) for t, n in f["statuses"]) + "]"
+    cw = "[" + ", ".join("(%s, %d)" % (json.dumps(t), n) for t, n in f["configWrites"]) + "]"
     return f"""-- GENERATED by harness/props/c20.py from {f["path"]} — do not edit
 namespace Pyro.Gen.C20
 /-- path.startswith(<prefix>) and path[<slice>:] in pyro_app -/
@@ -195,6 +232,13 @@ def refusalLines : List Nat := {f["refusalLines"]}
 def trafficLines : List Nat := {f["trafficLines"]}
 def defaultPattern : String := {json.dumps(f["defaultPattern"])}
 def defaultKeyIsNone : Bool := {b}
+/-- assignments to attributes of Pyro5's `config` inside pyro_app: (item, nesting depth; 0 = a plain statement of the body) -/
+def configWrites : List (String × Nat) := {cw}
+def configWriteLines : List Nat := {f["configWriteLines"]}
+/-- the literal assigned to config.SERIALIZER ("?" when it is not one string literal) -/
+def configSerializer : String := {json.dumps(f["configSerializer"])}
+/-- first line of pyro_app that reads `environ` -/
+def firstEnvironReadLine : Nat := {f["firstEnvironReadLine"]}
 end Pyro.Gen.C20
 """
 
@@ -259,8 +303,8 @@ def rmatch_names(path):
     return out
 
 
-def model_line(case):
-    w = case["world"]
+def model_line(case, pre=("serpent", 0.0), world=None):
+    w = world if world is not None else case["world"]
     key = "none" if case["key"] is None else (case["key"] or "-")
     pat = "none" if case["pattern"] is None else t_str(case["pattern"])
     q = urllib.parse.parse_qs(case["qs"])
@@ -288,7 +332,8 @@ def model_line(case):
     r = w["result"]
     result = "none" if r[0] == "none" else "%s:%s" % (r[0], r[1] if r[0] == "raised" else (r[1] or "-"))
     return " ".join(["req", key, pat, t_str(case["method"]), t_str(case["path"]), query, t_str(case["keyhdr"] or ""),
-                     t_str(case["options"] or ""), ctok, rm, nsget, nslist, lookup, connect, pyroerrs, bind, meta, result])
+                     t_str(case["options"] or ""), ctok, rm, nsget, nslist, lookup, connect, pyroerrs, bind, meta, result,
+                     str(pre[0]), str(ms(pre[1])), str(ms(case.get("apptmo", 0.0)))])
 
 
 # ----------------------------------------------------------------------------------------------
@@ -405,7 +450,9 @@ def _env():
 
         def _pyroInvoke(self, methodname, vargs, kwargs, flags=0, objectId=None):
             oneway = methodname in self._pyroOneway
-            _W.log("invoke", str(self._pyroUri), objectId, methodname, vargs, kwargs, flags, oneway)
+            # the serializer the real Proxy._pyroInvoke would use for this call (client.py: `self._pyroSerializer or config.SERIALIZER`)
+            _W.log("invoke", str(self._pyroUri), objectId, methodname, vargs, kwargs, flags, oneway,
+                   self._pyroSerializer or config.SERIALIZER)
             if oneway:
                 return None
             r = _W.spec["result"]
@@ -451,14 +498,42 @@ def _env():
     return _ENV
 
 
-def run_real(case):
-    """-> (reply dict, events)"""
+def ms(t):
+    return int(round(float(t or 0.0) * 1000))
+
+
+PRIME = {"key": None, "pattern": None, "method": "GET", "path": "/", "qs": "", "keyhdr": None, "options": None, "corr": None,
+         "world": {"nsget": ["ok"], "nslist": [], "lookup": {}, "connect": {}, "bind": {}, "meta": {"methods": [], "attrs": [], "oneway": []},
+                   "result": ["none"]}}
+
+
+def apply_perturb(config, p):
+    """other code in the process writes Pyro5.config (p = {"serializer":.., "commtimeout":..} or {"reset": true})"""
+    if not p:
+        return
+    if p.get("reset"):
+        config.reset()
+    else:
+        config.SERIALIZER = p["serializer"]
+        config.COMMTIMEOUT = float(p["commtimeout"])     # (replay files carry floats as text)
+
+
+def run_real(case, keep_config=False, prime=False, shim=None, world=None):
+    """-> (reply dict, events).  One request against THE gateway app object of this process.
+    keep_config: leave Pyro5.config as the request left it (the caller runs a history and restores at its end);
+    prime: handle one unrelated request first (replay of a failure that needs a history);
+    case["perturb"]: what other code writes into Pyro5.config just before this request."""
     global _W
     E = _env()
     gw, config, cc = E["gw"], E["config"], E["callcontext"]
+    cfg0 = (config.SERIALIZER, config.COMMTIMEOUT)
+    if prime:
+        run_real(PRIME, keep_config=True)
+    apply_perturb(config, case.get("perturb"))
     saved = (gw.get_nameserver, gw.client, gw.pyro_app.gateway_key, gw.pyro_app.ns_regex, gw.pyro_app.cors,
-             gw.pyro_app.comm_timeout, config.SERIALIZER, config.COMMTIMEOUT, cc.current_context.correlation_id, gw._nameserver)
-    _W = World(case["world"])
+             gw.pyro_app.comm_timeout, cc.current_context.correlation_id, gw._nameserver)
+    pre = (config.SERIALIZER, config.COMMTIMEOUT)
+    _W = World(world if world is not None else case["world"])
     environ = {"REQUEST_METHOD": case["method"], "PATH_INFO": case["path"], "QUERY_STRING": case["qs"],
                "wsgi.errors": io.StringIO(), "SERVER_NAME": "gw", "SERVER_PORT": "8080"}
     if case["keyhdr"] is not None:
@@ -471,7 +546,8 @@ def run_real(case):
     rep = {}
     try:
         gw.get_nameserver = E["get_nameserver"]
-        gw.client = E["shim"]
+        gw.client = shim or E["shim"]
+        gw.pyro_app.comm_timeout = float(case.get("apptmo", 0.0))
         gw.pyro_app.gateway_key = None if case["key"] is None else bytes.fromhex(case["key"])
         gw.pyro_app.ns_regex = case["pattern"]
         gw.pyro_app.cors = ""
@@ -485,7 +561,10 @@ def run_real(case):
             rep = {"kind": "escaped", "cls": qual(x), "msg": str(x)[:200], "nstart": len(started)}
     finally:
         (gw.get_nameserver, gw.client, gw.pyro_app.gateway_key, gw.pyro_app.ns_regex, gw.pyro_app.cors,
-         gw.pyro_app.comm_timeout, config.SERIALIZER, config.COMMTIMEOUT, cc.current_context.correlation_id, gw._nameserver) = saved
+         gw.pyro_app.comm_timeout, cc.current_context.correlation_id, gw._nameserver) = saved
+        rep["pre"], rep["post"] = pre, (config.SERIALIZER, config.COMMTIMEOUT)
+        if not keep_config:
+            config.SERIALIZER, config.COMMTIMEOUT = cfg0
     ev = _W.events
     _W = None
     return rep, ev
@@ -504,7 +583,7 @@ def canon_action(ev):
     if k in ("connect", "bind", "getmeta", "release"):
         return "%s:%s" % (k, t_str(ev[1]))
     if k == "invoke":
-        _, uri, oid, name, vargs, kwargs, flags, ow = ev
+        _, uri, oid, name, vargs, kwargs, flags, ow = ev[:8]
         if oid is None and flags == 0 and name == "__getattr__" and isinstance(vargs, tuple) and len(vargs) == 1 \
                 and isinstance(vargs[0], str) and not kwargs:
             return "getattr:%s:%s" % (t_str(uri), t_str(vargs[0]))
@@ -556,7 +635,7 @@ def canon_reply(case, rep):
 
 def canon(case, rep, events):
     acts = " ".join(canon_action(e) for e in events)
-    return canon_reply(case, rep) + (" # " + acts if acts else " #")
+    return canon_reply(case, rep) + (" # " + acts if acts else " #") + " cfg:%s:%d" % (rep["post"][0], ms(rep["post"][1]))
 
 
 # ----------------------------------------------------------------------------------------------
@@ -809,7 +888,7 @@ def check_property(ctx, case, rep, events):
     exp_params = {k: (v[0] if len(v) == 1 else v) for k, v in q.items() if not (key and k == "$key")}
     m = case["world"]["meta"]
     if invokes:
-        _, uri, oid, mname, vargs, kwargs, flags, ow = invokes[0]
+        _, uri, oid, mname, vargs, kwargs, flags, ow = invokes[0][:8]
         if target[0] != "u" or uri != target[1]:
             fail("wrong-object", "invocation sent to %r, the name %r resolves to %r" % (uri, name, target))
             return
@@ -824,6 +903,11 @@ def check_property(ctx, case, rep, events):
             if kwargs != exp_params:
                 fail("wrong-parameters", "invoked with %r, the query parameters are %r" % (kwargs, exp_params))
                 return
+        if invokes[0][8] != "json":
+            fail("call-not-json", "the forwarded call was made with serializer %r (after an earlier request, other code in the process "
+                 "had left Pyro5.config.SERIALIZER = %r): the HTTP client would not receive the call's JSON result"
+                 % (invokes[0][8], rep.get("pre", ("?",))[0]))
+            return
         # the HTTP client receives that call's answer
         r = case["world"]["result"]
         body = b"".join(rep["chunks"])
@@ -878,37 +962,72 @@ def check_property(ctx, case, rep, events):
 
 
 # ----------------------------------------------------------------------------------------------
-def _corpus():
+def _corpus(kind="case"):
     d = os.path.join(common.VERIF, "corpus", "C20")
     out = []
     if os.path.isdir(d):
         for fn in sorted(os.listdir(d)):
             if fn.endswith(".json"):
-                out.append(json.load(open(os.path.join(d, fn)))["case"])
+                j = json.load(open(os.path.join(d, fn)))
+                if kind in j:
+                    out.append(j[kind])
     return out
 
 
+SERIALIZERS = ["serpent", "marshal", "msgpack", "json"]
+
+
+def gen_perturb(rng, timeouts=(0.0, 1.5, 30.0)):
+    """what other code in the process does to Pyro5.config before the next request (None = nothing)"""
+    r = rng.random()
+    if r < 0.45:
+        return None
+    if r < 0.52:
+        return {"reset": True}
+    return {"serializer": rng.choice(SERIALIZERS), "commtimeout": rng.choice(timeouts)}
+
+
+def _account(ctx, c, rep, events, real):
+    ctx.evaluations += 1
+    toks = real.split(" #")[0].split()
+    ctx.count("reply:escaped" if toks[0] == "escaped" else "reply:%s:%s" % (
+        toks[0], toks[3] if toks[3].startswith(("error:", "lit:")) else "body?" if toks[3].startswith("body?") else toks[3].split(":")[0]))
+    for e in events:
+        ctx.count("action:" + e[0])
+    ctx.count("config-before:%s" % (rep["pre"][0],))
+    if events:
+        ctx.nontriv((c["key"], c["pattern"], c["method"], c["path"], c["qs"], c["keyhdr"], c["options"], c["corr"], real))
+
+
 def _run(ctx, name, n, do_model):
+    """ONE history against the one gateway app object of this process: the corpus, then n generated requests; before each
+    request other code may write Pyro5.config (seeded), nothing is restored until the end."""
     E = _env()
+    config = E["config"]
     rng = ctx.sub_rng(name)
+    prng = ctx.sub_rng(name + "/perturb")
     cases = _corpus() + [gen_case(rng, E["proxy_names"]) for _ in range(n)]
     lines, reals = [], []
-    for c in cases:
-        rep, events = run_real(c)
-        ctx.evaluations += 1
-        real = canon(c, rep, events)
-        reals.append(real)
-        toks = real.split(" #")[0].split()
-        ctx.count("reply:escaped" if toks[0] == "escaped" else "reply:%s:%s" % (toks[0], toks[3] if toks[3].startswith(("error:", "lit:")) else toks[3].split(":")[0]))
-        for e in events:
-            ctx.count("action:" + e[0])
-        if events:
-            ctx.nontriv((c["key"], c["pattern"], c["method"], c["path"], c["qs"], c["keyhdr"], c["options"], c["corr"], real))
-        if len(ctx.samples) < 6 and any(e[0] == "invoke" for e in events) and len(c["path"]) < 30:
-            ctx.sample({"request": "%s %s?%s" % (c["method"], c["path"], c["qs"]), "key": c["key"], "pattern": c["pattern"], "real": real})
-        check_property(ctx, c, rep, events)
-        if do_model:
-            lines.append(model_line(c))
+    cfg0 = (config.SERIALIZER, config.COMMTIMEOUT)
+    try:
+        for c in cases:
+            if "perturb" not in c:
+                c["perturb"] = gen_perturb(prng)
+                c["apptmo"] = prng.choice([0.0, 2.5, 5.0])
+            rep, events = run_real(c, keep_config=True)
+            # for replay: the configuration this request found (whoever wrote it, however long ago)
+            c["perturb"] = {"serializer": rep["pre"][0], "commtimeout": rep["pre"][1]}
+            real = canon(c, rep, events)
+            reals.append(real)
+            _account(ctx, c, rep, events, real)
+            if len(ctx.samples) < 6 and any(e[0] == "invoke" for e in events) and len(c["path"]) < 30:
+                ctx.sample({"request": "%s %s?%s" % (c["method"], c["path"], c["qs"]), "key": c["key"], "pattern": c["pattern"],
+                            "config written by other code before": c["perturb"], "real": real})
+            check_property(ctx, c, rep, events)
+            if do_model:
+                lines.append(model_line(c, rep["pre"]))
+    finally:
+        config.SERIALIZER, config.COMMTIMEOUT = cfg0
     if do_model:
         outs = common.run_driver("drv_c20", lines)
         ctx.corr_cases += len(lines)
@@ -917,15 +1036,227 @@ def _run(ctx, name, n, do_model):
                 ctx.mismatch("gateway", {"case": c, "line": l[:800]}, r[:600], m[:600])
 
 
+# ----------------------------------------------------------------------------------------------
+# histories against a REAL daemon on loopback: real client.Proxy, real wire, real serializers
+# ----------------------------------------------------------------------------------------------
+REAL_URI = "@REAL-THING@"
+_HIST = None
+
+
+def _hist_env():
+    """a real Pyro daemon (127.0.0.1, own thread) with one exposed object, and a logging subclass of the real Proxy
+    that changes nothing (every method calls the real one)"""
+    global _HIST
+    if _HIST is not None:
+        return _HIST
+    import threading
+    E = _env()
+    client, config = E["client"], E["config"]
+    from Pyro5 import server
+
+    calls = []
+
+    @server.expose
+    class Thing(object):
+        def echo(self, **kw):
+            calls.append(("echo", kw))
+            return kw
+
+        def describe(self, name):
+            calls.append(("describe", {"name": name}))
+            return {"name": name, "tags": ["a", "b"], "size": 3}
+
+        def fail(self, **kw):
+            calls.append(("fail", kw))
+            raise ValueError("scripted failure")
+
+        @property
+        def value(self):
+            calls.append(("value", None))
+            return 42
+
+    daemon = server.Daemon(host="127.0.0.1", port=0)
+    uri = str(daemon.register(Thing(), "thing"))
+    th = threading.Thread(target=daemon.requestLoop, daemon=True)
+    th.start()
+
+    class RealLogProxy(client.Proxy):
+        def __init__(self, uri):
+            _W.log("connect", str(uri))
+            super().__init__(uri)
+
+        def _pyroGetMetadata(self, objectId=None, known_metadata=None):
+            _W.log("getmeta", str(self._pyroUri))
+            return super()._pyroGetMetadata(objectId, known_metadata)
+
+        def _pyroInvoke(self, methodname, vargs, kwargs, flags=0, objectId=None):
+            if methodname != "get_metadata":
+                _W.log("invoke", str(self._pyroUri), objectId, methodname, vargs, kwargs, flags, methodname in self._pyroOneway,
+                       self._pyroSerializer or config.SERIALIZER)
+            return super()._pyroInvoke(methodname, vargs, kwargs, flags, objectId)
+
+        def __exit__(self, exc_type, exc_value, traceback):
+            _W.log("release", str(self._pyroUri))
+            return super().__exit__(exc_type, exc_value, traceback)
+
+    class Shim:
+        Proxy = RealLogProxy
+
+        def __getattr__(self, name):
+            return getattr(client, name)
+
+    _HIST = dict(daemon=daemon, thread=th, uri=uri, calls=calls, shim=Shim(),
+                 meta={"methods": ["describe", "echo", "fail"], "attrs": ["value"], "oneway": []})
+    return _HIST
+
+
+def _hist_close():
+    global _HIST
+    if _HIST is not None:
+        _HIST["daemon"].shutdown()
+        _HIST["thread"].join(5)
+        _HIST["daemon"].close()
+        _HIST = None
+
+
+def gen_history(rng):
+    key = rng.choice([None, None, b"secret".hex()])
+    steps = []
+    for _ in range(rng.randint(2, 6)):
+        r = rng.random()
+        qs_parts = []
+        expect = None
+        obj = "http.thing"
+        if r < 0.40:
+            member, expect = "echo", "echo"
+            for k in rng.sample(["a", "b", "name", "x y"], rng.randint(0, 3)):
+                qs_parts.append((k, rng.choice(VALUES[:2] + VALUES[3:])))
+                if rng.random() < 0.25:
+                    qs_parts.append((k, rng.choice(["2", "zz"])))
+        elif r < 0.55:
+            member, expect = "describe", "describe"
+            qs_parts.append(("name", rng.choice(["first", "second", "é€"])))
+        elif r < 0.67:
+            member, expect = "value", "value"
+        elif r < 0.77:
+            member, expect = "fail", "fail"
+        elif r < 0.84:
+            member, expect = "$meta", "$meta"
+        elif r < 0.92:
+            member, obj = "echo", rng.choice(["secret.thing", "xhttp.thing"])
+        else:
+            member = "nosuch"
+        present = rng.random() < 0.85
+        keyhdr = None
+        if key and present:
+            if rng.random() < 0.5:
+                keyhdr = "secret"
+            else:
+                qs_parts.insert(rng.randint(0, len(qs_parts)), ("$key", "secret"))
+        qs = "&".join("%s=%s" % (urllib.parse.quote(k, safe="$"), urllib.parse.quote(v)) for k, v in qs_parts)
+        steps.append({"key": key, "pattern": r"http\.", "method": rng.choice(["GET", "GET", "POST"]), "path": "/pyro/%s/%s" % (obj, member),
+                      "qs": qs, "keyhdr": keyhdr, "options": None, "corr": rng.choice([None, None, "11112222-1111-2222-3333-222244449999"]),
+                      "apptmo": 5.0, "perturb": gen_perturb(rng, timeouts=(0.0, 3.0, 8.0)), "expect": expect if (present or not key) else None})
+    return steps
+
+
+def _hist_world(step, result):
+    H = _hist_env()
+    return {"nsget": ["ok"], "nslist": [], "lookup": {"http.thing": ["u", H["uri"]], "secret.thing": ["u", H["uri"]]},
+            "connect": {}, "bind": {}, "meta": H["meta"], "result": result}
+
+
+def run_history(ctx, steps, do_model, lines=None, reals=None, items=None):
+    """all steps against the real daemon, Pyro5.config left alone between them except for the scripted writes"""
+    H = _hist_env()
+    E = _env()
+    config = E["config"]
+    from Pyro5 import serializers
+    jser = serializers.serializers["json"]
+    cfg0 = (config.SERIALIZER, config.COMMTIMEOUT)
+    try:
+        for i, st in enumerate(steps):
+            ncalls = len(H["calls"])
+            rep, events = run_real(st, keep_config=True, shim=H["shim"], world=_hist_world(st, ["none"]))
+            new_calls = H["calls"][ncalls:]
+            hist = {"history": steps[:i + 1]}
+            q = urllib.parse.parse_qs(st["qs"])
+            params = {k: (v[0] if len(v) == 1 else v) for k, v in q.items() if not (st["key"] and k == "$key")}
+            body = b"".join(rep.get("chunks", [])) if rep["kind"] == "http" else b""
+            desc = "request %d of the history (%s %s?%s, Pyro5.config written before it: %r)" % (i + 1, st["method"], st["path"], st["qs"], st["perturb"])
+            expect = st.get("expect")
+            # ---- the property on the real outcome: the HTTP client receives the call's JSON result
+            result = ["none"]
+            if expect in ("echo", "describe", "value", "fail"):
+                value = {"echo": params, "describe": {"name": params.get("name"), "tags": ["a", "b"], "size": 3}, "value": 42}.get(expect)
+                want_call = (expect, None if expect == "value" else params)
+                try:
+                    got = json.loads(body.decode("utf-8"))
+                    is_json = True
+                except ValueError:
+                    got, is_json = None, False
+                if rep["kind"] != "http":
+                    pass        # check_property reports escapes
+                elif not is_json:
+                    ctx.fail("reply-not-json", "%s: the HTTP client did not receive JSON but %r" % (desc, body[:80]), hist)
+                elif expect == "fail":
+                    if rep["status"] != 500 or not (isinstance(got, dict) and got.get("__exception__") and got.get("__class__") == "builtins.ValueError"):
+                        ctx.fail("wrong-answer", "%s: the call raised ValueError, the HTTP client received %d %r" % (desc, rep["status"], body[:80]), hist)
+                elif rep["status"] != 200 or got != value:
+                    ctx.fail("wrong-answer", "%s: the call returned %r, the HTTP client received %d %r" % (desc, value, rep["status"], body[:80]), hist)
+                if new_calls != [want_call]:
+                    ctx.fail("call-not-forwarded" if not new_calls else "wrong-parameters",
+                             "%s: the remote object saw %r, expected exactly %r" % (desc, new_calls, want_call), hist)
+                if expect == "fail":
+                    result = ["exc", body.hex() if (rep["kind"] == "http" and rep["status"] == 500 and is_json) else "00"]
+                else:
+                    result = ["ret", bytes(jser.dumps(value)).hex()]
+            elif new_calls:
+                ctx.fail("traffic-unauthorised", "%s: the remote object was invoked: %r" % (desc, new_calls), hist)
+            world = _hist_world(st, result)
+            real = canon(dict(st, world=world), rep, events)
+            _account(ctx, st, rep, events, real)
+            before = len(ctx.failures)
+            check_property(ctx, dict(st, world=world), rep, events)
+            for f in ctx.failures[before:]:
+                f["case"] = hist
+            if do_model:
+                lines.append(model_line(st, rep["pre"], world=world))
+                reals.append(real)
+                items.append(hist)
+    finally:
+        config.SERIALIZER, config.COMMTIMEOUT = cfg0
+
+
+def _run_histories(ctx, name, n, do_model):
+    rng = ctx.sub_rng(name)
+    hs = _corpus("history") + [gen_history(rng) for _ in range(n)]
+    lines, reals, items = [], [], []
+    try:
+        for steps in hs:
+            run_history(ctx, steps, do_model, lines, reals, items)
+            ctx.count("histories")
+    finally:
+        _hist_close()
+    if do_model and lines:
+        outs = common.run_driver("drv_c20", lines)
+        ctx.corr_cases += len(lines)
+        for it, l, r, m in zip(items, lines, reals, outs):
+            if r != m:
+                ctx.mismatch("history", {"case": it, "line": l[:800]}, r[:600], m[:600])
+
+
 def correspondence(ctx):
     _run(ctx, "corr", ctx.n(9000, 250000), True)
+    _run_histories(ctx, "hist", ctx.n(150, 4000), True)
 
 
 def oracle(ctx):
-    # step D runs inside _run on the same cases (check_property looks at the real outcome only);
-    # in search mode it runs again on fresh cases with a larger budget
+    # step D runs inside _run / run_history on the same cases (check_property and the history oracle look at the real
+    # outcome only); in search mode it runs again on fresh cases with a larger budget
     if ctx.search_mode:
         _run(ctx, "search", ctx.n(30000, 100000), False)
+        _run_histories(ctx, "hist-search", ctx.n(400, 4000), False)
 
 
 def replay(ctx, case):
@@ -934,14 +1265,24 @@ def replay(ctx, case):
     if not c:
         print("replay file names no failing input:", case.get("no_longer_checks"))
         return 1
-    rep, events = run_real(c)
-    print("%s %r ?%s  key=%r pattern=%r keyhdr=%r options=%r" % (c["method"], c["path"], c["qs"], c["key"], c["pattern"], c["keyhdr"], c["options"]))
-    print("  reply :", canon_reply(c, rep), rep.get("msg", ""))
-    print("  events:", events)
     before = len(ctx.failures)
-    check_property(ctx, c, rep, events)
+    if "history" in c:
+        for i, st in enumerate(c["history"]):
+            print("  %d. config written by other code: %r ; then %s %r ?%s  key=%r keyhdr=%r" % (
+                i + 1, st.get("perturb"), st["method"], st["path"], st["qs"], st["key"], st["keyhdr"]))
+        try:
+            run_history(ctx, c["history"], False)
+        finally:
+            _hist_close()
+    else:
+        rep, events = run_real(c, prime=bool(c.get("perturb")))
+        print("%s %r ?%s  key=%r pattern=%r keyhdr=%r options=%r ; Pyro5.config written by other code before it (after one earlier request): %r" % (
+            c["method"], c["path"], c["qs"], c["key"], c["pattern"], c["keyhdr"], c["options"], c.get("perturb")))
+        print("  reply :", canon_reply(c, rep), rep.get("msg", ""))
+        print("  events:", events)
+        check_property(ctx, c, rep, events)
     new = ctx.failures[before:]
     for x in new:
-        print("  [%s] %s" % (x["signature"], x["desc"][:300]))
+        print("  [%s] %s" % (x["signature"], x["desc"][:400]))
     print("VIOLATION reproduced" if new else "not reproduced")
     return 1 if new else 0
